@@ -82,7 +82,8 @@ def run_go_functions(rep, spec, contracts, word=64, natives=(), extra_pkgs=(), v
         for cl in c.get('inline'):
             inl |= set(cl.text.replace(',', ' ').split())
     pkgs = sorted({pkg_of_key(k) for k in list(keys) + list(inl) if not k.startswith(('natives:', 'goroot:'))} | set(extra_pkgs))
-    allkeys = {c.key for c in spec.contracts if c.kind == 'func' and not c.key.startswith(('natives:', 'goroot:')) and pkg_of_key(c.key) in pkgs}
+    natives = sorted(set(natives) | {pkg_of_key(k) for k in list(keys) + list(inl) if k.startswith(('natives:', 'goroot:'))})
+    allkeys = {c.key for c in spec.contracts if c.kind == 'func' and (pkg_of_key(c.key) in pkgs if not c.key.startswith(('natives:', 'goroot:')) else pkg_of_key(c.key) in natives)}
     gl = set()
     for c in contracts:
         for cl in c.get('initval'):
